@@ -351,7 +351,11 @@ func (f *fx) ncallsKey(ci ssa.CallInstruction) string {
 func (f *fx) enterLoop(li *loopInfo, edges []*edge) {
 	spec := f.loopSpec(li)
 	if spec == nil {
-		unsupp("loop %d of %s has no invariant", li.ord, fnKey(f.fn))
+		if c := f.e.specs.Contracts[fnKey(f.top.fn)]; c != nil && c.Implicit {
+			spec = &LoopSpec{}
+		} else {
+			unsupp("loop %d of %s has no invariant", li.ord, fnKey(f.fn))
+		}
 	}
 	li.spec = spec
 	// entry edges = non-back edges
@@ -618,6 +622,20 @@ func (f *fx) staticStoreKeys(addr ssa.Value) []string {
 	return nil
 }
 
+// initFresh initialises a field of a freshly allocated object. The new array gets a name and an
+// explicit frame lemma, so that quantified facts about older objects keep matching.
+func (f *fx) initFresh(key string, ref, val Term) {
+	old := f.get(f.cur, key)
+	if strings.HasPrefix(key, "B:") {
+		n := f.sc.fresh(key+"@a", old.Sort)
+		f.sc.assert(eq(n, sto(old, ref, val)))
+		f.sc.assert(T("Bool", "(forall ((x Int)) (! (=> (not (= x %s)) (= (select %s x) (select %s x))) :pattern ((select %s x))))", ref.S, n.S, old.S, n.S))
+		f.set(f.cur, key, n)
+		return
+	}
+	f.set(f.cur, key, sto(old, ref, val))
+}
+
 func (f *fx) newRef(what string) Term {
 	old := f.allocNow(f.cur)
 	r := f.sc.define("ref_"+what, T("Int", "(+ %s 1)", old.S))
@@ -659,16 +677,24 @@ func (f *fx) exec(in ssa.Instruction, edges []*edge) {
 		}
 		ref := f.newRef(x.Comment)
 		var l *Loc
+		if at, ok := elem.Underlying().(*types.Array); ok {
+			// a heap array is laid out like a slice backing store, so that slicing it shares the elements
+			k := f.backingKey(at.Elem())
+			zarr := f.e.sorts.zero(arraySort("Int", f.e.sorts.sortOf(at.Elem())))
+			f.initFresh(k, ref, zarr)
+			f.vals[x] = locVal(&Loc{Root: rootBacking, Ref: ref, Typ: at.Elem(), PTyp: elem})
+			return
+		}
 		if st, ok := elem.Underlying().(*types.Struct); ok && f.e.sorts.structInfo[srt] != nil {
 			l = &Loc{Root: rootHeap, Ref: ref, Typ: elem, PTyp: elem}
 			for i := 0; i < st.NumFields(); i++ {
 				k := f.fieldKey(elem, i)
-				f.set(f.cur, k, sto(f.get(f.cur, k), ref, f.e.sorts.zero(f.e.sorts.sortOf(st.Field(i).Type()))))
+				f.initFresh(k, ref, f.e.sorts.zero(f.e.sorts.sortOf(st.Field(i).Type())))
 			}
 		} else {
 			l = &Loc{Root: rootCell, Ref: ref, Typ: elem, PTyp: elem}
 			k := f.cellKey(elem)
-			f.set(f.cur, k, sto(f.get(f.cur, k), ref, f.e.sorts.zero(srt)))
+			f.initFresh(k, ref, f.e.sorts.zero(srt))
 		}
 		f.vals[x] = locVal(l)
 	case *ssa.FieldAddr:
@@ -679,6 +705,7 @@ func (f *fx) exec(in ssa.Instruction, edges []*edge) {
 		l := f.ptrLoc(base, x.X.Type())
 		ft := l.PTyp.Underlying().(*types.Struct).Field(x.Field).Type()
 		f.vals[x] = locVal(l.extend(PathStep{Field: x.Field}, ft))
+		f.guardAccess(fieldOf(x), false, base, x.X.Type(), x, x.Pos())
 	case *ssa.Field:
 		v := f.term(x.X)
 		st := x.X.Type().Underlying().(*types.Struct)
@@ -695,7 +722,7 @@ func (f *fx) exec(in ssa.Instruction, edges []*edge) {
 		case *types.Slice:
 			s := f.term(x.X)
 			f.crash("index", T("Bool", "(and (<= 0 %s) (< %s (sl_len %s)))", idx.S, idx.S, s.S), x.Pos())
-			off := T("Int", "(+ (sl_off %s) %s)", s.S, idx.S)
+			off := T("Int", "(idx_add (sl_off %s) %s)", s.S, idx.S)
 			f.vals[x] = locVal(&Loc{Root: rootBacking, Ref: T("Int", "(sl_ref %s)", s.S), Typ: t.Elem(), Path: []PathStep{{Field: -1, Idx: &off}}, PTyp: t.Elem()})
 		case *types.Pointer:
 			arr := t.Elem().Underlying().(*types.Array)
@@ -706,6 +733,9 @@ func (f *fx) exec(in ssa.Instruction, edges []*edge) {
 			f.crash("index", T("Bool", "(and (<= 0 %s) (< %s %d))", idx.S, idx.S, arr.Len()), x.Pos())
 			l := f.ptrLoc(base, x.X.Type())
 			f.vals[x] = locVal(l.extend(PathStep{Field: -1, Idx: &idx}, arr.Elem()))
+			if l.Root == rootBacking && len(l.Path) == 0 {
+				f.vals[x].Loc.Typ = arr.Elem()
+			}
 		default:
 			unsupp("IndexAddr on %s", x.X.Type())
 		}
@@ -761,7 +791,7 @@ func (f *fx) exec(in ssa.Instruction, edges []*edge) {
 		elem := x.Type().Underlying().(*types.Slice).Elem()
 		k := f.backingKey(elem)
 		zarr := f.e.sorts.zero(arraySort("Int", f.e.sorts.sortOf(elem)))
-		f.set(f.cur, k, sto(f.get(f.cur, k), ref, zarr))
+		f.initFresh(k, ref, zarr)
 		f.vals[x] = termVal(T("Slice", "(mk_slice %s 0 %s %s)", ref.S, ln.S, cp.S))
 	case *ssa.MakeMap:
 		ref := f.newRef("map")
@@ -893,6 +923,9 @@ func (f *fx) unop(x *ssa.UnOp) {
 			f.crash("nil-deref", T("Bool", "(not (= %s 0))", addr.T.S), x.Pos())
 		}
 		l := f.ptrLoc(addr, x.X.Type())
+		if gl, ok := x.X.(*ssa.Global); ok {
+			f.guardAccess(gl.Name(), true, Val{}, nil, x, x.Pos())
+		}
 		v := f.load(f.cur, l)
 		v = f.sc.define("ld", v)
 		f.assumeTyped(f.cur, v, x.Type())
@@ -1070,7 +1103,6 @@ func (f *fx) makeIface(v Val, t types.Type) Term {
 	} else {
 		payload = app("Int", f.boxName(x.Sort), x)
 	}
-	f.sc.declareOnce("is_ptr_tag", "(declare-fun is_ptr_tag (Int) Bool)")
 	isPtr := "false"
 	if _, ok := t.Underlying().(*types.Pointer); ok {
 		isPtr = "true"
@@ -1151,6 +1183,10 @@ func (f *fx) sliceOp(x *ssa.Slice) {
 			hi = intLit(arr.Len())
 		}
 		f.crash("slice-bounds", T("Bool", "(and (<= 0 %s) (<= %s %s) (<= %s %d))", lo.S, lo.S, hi.S, hi.S, arr.Len()), x.Pos())
+		if bv := f.val(x.X); bv.Kind == vLoc && bv.Loc.Root == rootBacking && len(bv.Loc.Path) == 0 {
+			f.vals[x] = termVal(T("Slice", "(mk_slice %s %s (- %s %s) (- %d %s))", bv.Loc.Ref.S, lo.S, hi.S, lo.S, arr.Len(), lo.S))
+			return
+		}
 		ref := f.newRef("arrslice")
 		f.note("slice of array in " + fnKey(f.fn) + ": contents not related to the array")
 		f.vals[x] = termVal(T("Slice", "(mk_slice %s 0 (- %s %s) (- %d %s))", ref.S, hi.S, lo.S, arr.Len(), lo.S))
